@@ -138,3 +138,143 @@ class BinCompletionOversize(BinCompletion):
 bin_completion = BinCompletion()
 bin_completion_oversize = BinCompletionOversize()
 ALL = [("contracts.bincompletion", "bin_completion")]
+
+
+# ------------------------------------------------------------------------------------------------ helpers of bin_completion_utils.py (modular contracts)
+def count(lst, w):
+    return sum([z3.If(x == w, 1, 0) for x in lst], z3.IntVal(0))
+
+
+class Helper(FunctionContract):
+    tier = "T2"
+    min_obligations = 1
+    unroll_limit = 200
+    crosscheck = False
+
+    def ints(self, it, name, n, lo=0):
+        xs = [z3.Int(f"{name}{i}") for i in range(n)]
+        for x in xs:
+            it.assume(x >= lo)
+        return xs
+
+
+class ListWithoutItems(Helper):
+    """list_without_items(original, to_remove) is the multiset difference original - to_remove (one occurrence removed per occurrence)"""
+    target = "prtpy/packing/bin_completion_utils.py::list_without_items"
+
+    def shapes(self, level):
+        m = 4 if level == "quick" else 5
+        return [(a, b) for a in range(0, m + 1) for b in range(0, 4) if a + b <= m + 1]
+
+    def shape_text(self, s):
+        return f"len(original)={s[0]} len(to_remove)={s[1]}, all integer values"
+
+    def make_args(self, it, shape):
+        a, b = shape
+        self._o, self._r = self.ints(it, "o", a), self.ints(it, "r", b)
+        self._orig = PList([SV(x) for x in self._o])
+        return {"original": self._orig, "to_remove": PList([SV(x) for x in self._r])}
+
+    def post(self, c, kind, res):
+        if kind != "return":
+            return []
+        out = [term_of(x) for x in res.elems]
+        ws = self._o + self._r
+        f = [count(out, w) == z3.If(count(self._o, w) >= count(self._r, w), count(self._o, w) - count(self._r, w), 0) for w in ws]
+        return [("C03:multiset-difference(one-occurrence-per-occurrence)", z3.And(f + [z3.BoolVal(len(out) <= len(self._o))]) if f else z3.BoolVal(len(out) == 0)),
+                ("C15:original-unmodified", z3.And([term_of(x) == y for x, y in zip(self._orig.elems, self._o)] + [z3.BoolVal(len(self._orig.elems) == len(self._o))]))]
+
+
+class IsDominant(Helper):
+    """is_dominant(l1, l2) (both sorted in descending order) <=> the elements of l2 can be distributed over |l1| bins whose capacities are the
+    elements of l1.  The obligation F8 broke: dominance must respect multiplicities."""
+    target = "prtpy/packing/bin_completion_utils.py::is_dominant"
+
+    def shapes(self, level):
+        m = 3
+        return [(a, b) for a in range(0, m + 1) for b in range(0, m + 1)]
+
+    def shape_text(self, s):
+        return f"len(list1)={s[0]} len(list2)={s[1]}, positive integers, both sorted descending"
+
+    def make_args(self, it, shape):
+        a, b = shape
+        self._a, self._b = self.ints(it, "a", a, 1), self.ints(it, "b", b, 1)
+        for xs in (self._a, self._b):
+            for p, q in zip(xs, xs[1:]):
+                it.assume(p >= q)
+        return {"list1": PList([SV(x) for x in self._a]), "list2": PList([SV(x) for x in self._b])}
+
+    def post(self, c, kind, res):
+        if kind != "return":
+            return []
+        A, B = self._a, self._b
+        alts = []
+        if not B:
+            spec = z3.BoolVal(True)
+        elif not A:
+            spec = z3.BoolVal(False)
+        else:
+            for assign in itertools.product(range(len(A)), repeat=len(B)):
+                alts.append(z3.And([sum([B[i] for i in range(len(B)) if assign[i] == j], z3.IntVal(0)) <= A[j] for j in range(len(A))]))
+            spec = z3.Or(alts)
+        r = res if isinstance(res, bool) else term_of(res)
+        return [("C04:dominance-iff-list2-fits-into-bins-of-sizes-list1", (z3.BoolVal(r) if isinstance(r, bool) else r) == spec)]
+
+
+class FindBinCompletions(Helper):
+    """every completion returned for the bin holding x is a sub-multiset of the remaining items that fits next to x, and every feasible
+    subset of the items is dominated by some returned completion (so discarding the others loses no optimal packing)"""
+    target = "prtpy/packing/bin_completion_utils.py::find_bin_completions"
+    timeout_ms = 60000
+
+    def shapes(self, level):
+        return [1, 2, 3] if level == "quick" else [1, 2, 3, 4]
+
+    def shape_text(self, n):
+        return f"{n} remaining items sorted descending, positive integers <= binsize; x and binsize symbolic"
+
+    def make_args(self, it, n):
+        self._n = n
+        B, x = z3.Int("binsize"), z3.Int("x")
+        vs = self.ints(it, "v", n, 1)
+        it.assume(z3.And(B >= 1, x >= 1, x <= B))
+        for v in vs:
+            it.assume(z3.And(v <= x, v <= B))          # items are taken in descending order: the remaining ones are not larger than x
+        for p, q in zip(vs, vs[1:]):
+            it.assume(p >= q)
+        self._vs, self._B, self._x = vs, B, x
+        return {"x": SV(x), "items": PList([SV(v) for v in vs]), "binsize": SV(B)}
+
+    def post(self, c, kind, res):
+        if kind != "return":
+            return []
+        vs, B, x, n = self._vs, self._B, self._x, self._n
+        comps = [[term_of(e) for e in cc.elems] for cc in res.elems]
+        sound = []
+        for cc in comps:
+            sound.append(x + sum(cc, z3.IntVal(0)) <= B)
+            sound.append(z3.And([count(cc, w) <= count(vs, w) for w in cc] or [z3.BoolVal(True)]))
+        out = [("C03:every-completion-is-a-sub-multiset-of-the-items-that-fits-next-to-x", z3.And(sound) if sound else z3.BoolVal(True))]
+        # completeness up to dominance: each feasible subset S fits into the bins |c| of some returned completion c (S <= c in the dominance order)
+        goal = []
+        for r in range(1, n + 1):
+            for S in itertools.combinations(range(n), r):
+                feas = x + sum([vs[i] for i in S], z3.IntVal(0)) <= B
+                doms = []
+                for cc in comps:
+                    if not cc:
+                        continue
+                    alts = []
+                    for assign in itertools.product(range(len(cc)), repeat=len(S)):
+                        alts.append(z3.And([sum([vs[S[i]] for i in range(len(S)) if assign[i] == j], z3.IntVal(0)) <= cc[j] for j in range(len(cc))]))
+                    doms.append(z3.Or(alts))
+                goal.append(z3.Implies(feas, z3.Or(doms) if doms else z3.BoolVal(False)))
+        out.append(("C04:every-feasible-subset-is-dominated-by-a-returned-completion", z3.And(goal) if goal else z3.BoolVal(True)))
+        return out
+
+
+list_without_items = ListWithoutItems()
+is_dominant = IsDominant()
+find_bin_completions = FindBinCompletions()
+HELPERS = [("contracts.bincompletion", n) for n in ("list_without_items", "is_dominant", "find_bin_completions")]
